@@ -81,7 +81,8 @@ Proof. exact error_handler_cannot_rescue. Qed.
 Print Assumptions C01_error_handler_cannot_rescue.
 
 (** ... and heimdall's three mechanisms (default, redirect, www_authenticate; C12's
-    model of them, tied to the code by both streams) do record *)
+    model of them, tied to the code by the three correspondence streams of this
+    check and by C12's) do record *)
 Theorem C01_real_mechanisms_record : forall m, records (h_sem (EhReal m)).
 Proof. exact real_mechanisms_record. Qed.
 Print Assumptions C01_real_mechanisms_record.
@@ -150,13 +151,29 @@ Theorem C01_no_authenticator_is_positive :
 Proof. exact no_authenticator_is_positive. Qed.
 Print Assumptions C01_no_authenticator_is_positive.
 
-(** a redirect error with code 200 answers a failed pipeline with a success status
-    (such a handler cannot be loaded any more: [success_redirect_rule_not_loadable]) *)
+(** the redirect-code hypothesis, part 1 (historical): a redirect HANDLER with code
+    200 answers a failed pipeline with a success status.  The loader rejects such a
+    handler since fix 6c5864d ([C01_success_redirect_rule_not_loadable] below,
+    [C01_loader_redirect_never_success] above); kept to show why the loader check matters *)
 Theorem C01_success_redirect_is_positive :
   ~ pipeline_completed redirect200_rule /\ ~ redirects_ok redirect200_rule /\
   positive Decision plain_config (serve Decision plain_config (Matched redirect200_rule) plain_request).
 Proof. exact success_redirect_is_positive. Qed.
 Print Assumptions C01_success_redirect_is_positive.
+
+(** the redirect-code hypothesis, part 2 (live): an error VALUE carrying a
+    RedirectError with code 200, returned by a mechanism and passed through by an
+    empty error pipeline, is answered with status 200 by both translators — the
+    accepted status of the decision service.  Nothing proves that heimdall's
+    mechanisms never return such a value; [redirects_ok] assumes it. *)
+Theorem C01_success_redirect_value_is_positive :
+  ~ pipeline_completed redirect200_value_rule /\ ~ redirects_ok redirect200_value_rule /\
+  eh redirect200_value_rule = [] /\ handlers_record redirect200_value_rule /\
+  serve Decision plain_config (Matched redirect200_value_rule) plain_request = AHttp 200 0 /\
+  positive Decision plain_config (serve Decision plain_config (Matched redirect200_value_rule) plain_request) /\
+  serve Envoy plain_config (Matched redirect200_value_rule) plain_request = AEnvoyDenied GFailedPrecondition 200.
+Proof. exact success_redirect_value_is_positive. Qed.
+Print Assumptions C01_success_redirect_value_is_positive.
 
 (** a panicking continue-on-error step: completed by the letter, a reached panic, answered 500 *)
 Example C01_continue_step_panic_is_reached :
@@ -191,6 +208,12 @@ Print Assumptions C01_nonvacuous.
 (** the executable predicates used on the observations are the specification *)
 Lemma C01_completed_b_spec : forall r, completed_b r = true <-> pipeline_completed r.
 Proof. exact completed_b_spec. Qed.
+Print Assumptions C01_completed_b_spec.
+
+(** the witness rule of [C01_success_redirect_is_positive] cannot be loaded since fix 6c5864d *)
+Lemma C01_success_redirect_rule_not_loadable : ~ Forall loader_created (eh redirect200_rule).
+Proof. exact success_redirect_rule_not_loadable. Qed.
+Print Assumptions C01_success_redirect_rule_not_loadable.
 
 (** the evaluator's property predicate demands nothing the theorems do not give: it
     holds whenever the observations equal the model's answers and the hypotheses hold *)
